@@ -1,5 +1,9 @@
 import DateutilVerif.Model.Parser
 import DateutilVerif.Proofs.ParserIsoTok
+import DateutilVerif.Proofs.RenderIsoFinal
+import DateutilVerif.Proofs.RenderCompact
+import DateutilVerif.Proofs.RenderMonFinal
+import DateutilVerif.Proofs.RenderClockFinal
 namespace C02
 open PM Py PT
 
@@ -124,9 +128,73 @@ example : (DT.mk 9999 12 31 23 59 59 0).Valid := by decide
 example : parse asciiCls (Info.default false false 2024 2000) {} [] .absent ⟨2003, 9, 25, 0, 0, 0, 0⟩
     (renderIso 'T' ⟨31, 5, 28, 23, 52, 59, 7⟩) = .ok ⟨⟨31, 5, 28, 23, 52, 59, 0⟩, .naive, none⟩ := by decide +kernel
 
+/-! ### the template families with a theorem for ALL valid datetimes
+
+  Common setting: any classification agreeing with Python's on ASCII (`AsciiOK`, checked against Python each
+  run), the stock parserinfo (tables dumped from /repo each run) with any `yearfirst` / `_year`, strict options
+  without `dayfirst`, `tzinfos` silent on a missing name and on `UTC` (`PlainOpts`), any valid default.
+  Fields a rendering does not name come from the default (C15), so `expect` says exactly which fields are read
+  from the text; with the oracle's midnight default this is `trunc`. -/
+
+/-- **families 1 and 2**: `YYYY-MM-DD[T| ]HH:MM[:SS[(.|,)f{1..6}]]` followed by nothing, `Z`, ` Z`, ` UTC`, `±HH`,
+    `±HHMM`, `±HH:MM` (optionally after a space), offsets −23:59..+23:59: that datetime, cut to the digits shown,
+    naive / `tz.UTC` (the local zone if it is itself called UTC) / the fixed offset. -/
+theorem parse_render_iso_offsets (cls : Char → CClass) [AsciiOK cls] (yf : Bool) (year century : Int) (o : Opts)
+    (tznames : List Token) (tzi : TzInfos) (ho : PlainOpts o tzi) (dflt : DT) (hdv : dflt.Valid) (t : DT) (ht : t.Valid)
+    (sep : Char) (hsep : sep = 'T' ∨ sep = ' ') (f : TimeFmt) (hf : timeFmtDom f) (off : Off) (hoff : off.Dom) :
+    parse cls (Info.default false yf year century) o tznames tzi dflt (renderIsoX sep f t off) =
+      .ok { dt := f.expect t dflt, tz := if o.ignoretz then .naive else offDescr tznames off, tokens := none } :=
+  parse_isoX cls yf year century o tznames tzi ho dflt hdv t ht sep hsep f hf off hoff
+
+/-- **family 3**: `YYYYMMDDTHHMMSS`, `YYYYMMDDHHMMSS`, `YYYYMMDDTHHMM`, `YYYYMMDD` -/
+theorem parse_render_compact (cls : Char → CClass) [AsciiOK cls] (yf : Bool) (year century : Int) (o : Opts)
+    (tznames : List Token) (tzi : TzInfos) (ho : PlainOpts o tzi) (dflt : DT) (hdv : dflt.Valid) (t : DT) (ht : t.Valid)
+    (f : CompactFmt) :
+    parse cls (Info.default false yf year century) o tznames tzi dflt (renderCompact f t) =
+      .ok { dt := f.expect t dflt, tz := .naive, tokens := none } :=
+  parse_compact cls yf year century o tznames tzi ho dflt hdv t ht f
+
+/-- **family 4**: ctime `Www Mmm dd HH:MM:SS YYYY`, RFC 2822 `Www, DD Mmm YYYY HH:MM:SS<offset>`, `Month D, YYYY`,
+    `D Mon YYYY` (year ≥ 100: D-C02 is exactly the excluded class) and `DD-Mon-YYYY` (every year); the weekday word
+    may be any of the seven (the parser ignores it when a day is given) -/
+theorem parse_render_monthname (cls : Char → CClass) [AsciiOK cls] (yf : Bool) (year century : Int) (o : Opts)
+    (tznames : List Token) (tzi : TzInfos) (ho : PlainOpts o tzi) (dflt : DT) (hdv : dflt.Valid) (t : DT) (ht : t.Valid)
+    (f : MonFmt) (hf : f.Dom t) (off : Off) (hoff : off.Dom) :
+    parse cls (Info.default false yf year century) o tznames tzi dflt (renderMon f t off) =
+      .ok { dt := f.expect t dflt,
+            tz := match f with
+              | .rfc2822 _ => if o.ignoretz then .naive else offDescr tznames off
+              | _ => .naive,
+            tokens := none } :=
+  parse_mon cls yf year century o tznames tzi ho dflt hdv t ht f hf off hoff
+
+/-- **family 5**: `YYYY-MM-DD H:MM AM|PM`, every hour of the day (12 AM = 0, 12 PM = 12) through the
+    source-translated `_adjust_ampm` -/
+theorem parse_render_ampm (cls : Char → CClass) [AsciiOK cls] (yf : Bool) (year century : Int) (o : Opts)
+    (tznames : List Token) (tzi : TzInfos) (ho : PlainOpts o tzi) (dflt : DT) (hdv : dflt.Valid) (t : DT) (ht : t.Valid) :
+    parse cls (Info.default false yf year century) o tznames tzi dflt (renderAmpm t) =
+      .ok { dt := { t with ss := dflt.ss, us := dflt.us }, tz := .naive, tokens := none } :=
+  parse_ampm cls yf year century o tznames tzi ho dflt hdv t ht
+
+/-- **family 6**: `YYYY-MM-DD HHhMMmSSs` -/
+theorem parse_render_hms_letters (cls : Char → CClass) [AsciiOK cls] (yf : Bool) (year century : Int) (o : Opts)
+    (tznames : List Token) (tzi : TzInfos) (ho : PlainOpts o tzi) (dflt : DT) (t : DT) (ht : t.Valid) :
+    parse cls (Info.default false yf year century) o tznames tzi dflt (renderHmsLetters t) =
+      .ok { dt := { t with us := 0 }, tz := .naive, tokens := none } :=
+  parse_hmsLetters cls yf year century o tznames tzi ho dflt t ht
+
+/-- non-vacuity: Python's ASCII classification and the default options meet the hypotheses; a fractional rendering
+    with a half-hour negative offset really comes back -/
+example : AsciiOK asciiCls := inferInstance
+example : PlainOpts {} .absent := ⟨rfl, rfl, rfl, rfl, rfl⟩
+example : timeFmtDom (.frac true 3) ∧ (Off.hhcmm true true 3 30).Dom := by simp [timeFmtDom, Off.Dom]
+example : parse asciiCls (Info.default false false 2024 2000) {} [] .absent ⟨2001, 1, 1, 0, 0, 0, 0⟩
+    (renderIsoX 'T' (.frac true 3) ⟨2003, 9, 25, 10, 49, 41, 502999⟩ (.hhcmm true true 3 30)) =
+    .ok ⟨⟨2003, 9, 25, 10, 49, 41, 502000⟩, .fixed none (-12600), none⟩ := by decide +kernel
+
 /-
-  parse_render_partial — the other 42 templates (fractions, compact, ctime, RFC 2822, month names, h/m/s
-  letters, US/European/year-first numeric, 12-hour forms, two-digit years, and every offset spelling) have no
+  parse_render_partial — what is left (family 7: US / European / year-first numeric dates and two-digit years; the
+  `Month D, YYYY h:mm:ss AM` long form, `hAM` without minutes, `HHhMMm`, `HHMMSS.ffffff` after a compact date) has no
   symbolic theorem: for them the round trip rests on the per-run oracle sweep of the implementation and on the
   correspondence of the executable model (the same `PM.parse`) with the implementation on those renderings.
   D-C02: for the month-name templates the full-strength statement is false for years < 100; the model shows it:
